@@ -453,13 +453,53 @@ pub fn gen_tex_3ds(rng: &mut Rng, sjis: bool, big: bool) -> Tex {
     Tex { name: gen_name(rng, sjis), w, h, fmt, payload, palette: Vec::new() }
 }
 
-pub fn gen_tex_tpl(rng: &mut Rng, big: bool) -> Tex {
-    let (w, h) = if big { (rng.range(1, 64) as u32, rng.range(1, 64) as u32) } else { (rng.range(1, 18) as u32, rng.range(1, 10) as u32) };
-    let entries = *rng.pick(&[1usize, 2, 5, 16, 32, 256]);
+/// CI8 index plane for a `w`x`h` image over `entries` palette entries, in 8x4 blocks of the padded
+/// image: texels inside the image index the palette; padding texels (outside `w`x`h`) are not part of
+/// the image and take bytes from the full range — 0xFF filler, values at and above the palette length.
+pub fn ci8_plane(rng: &mut Rng, w: u32, h: u32, entries: usize) -> Vec<u8> {
     let aw = (w as usize + 7) / 8 * 8;
     let ah = (h as usize + 3) / 4 * 4;
-    let payload: Vec<u8> = (0..aw * ah).map(|_| rng.below(entries as u64) as u8).collect();
+    let pad_style = rng.below(4);
+    let mut p = vec![0u8; aw * ah];
+    for y in 0..ah {
+        for x in 0..aw {
+            let off = ((y / 4) * (aw / 8) + x / 8) * 32 + (y % 4) * 8 + x % 8;
+            p[off] = if x < w as usize && y < h as usize {
+                rng.below(entries as u64) as u8
+            } else {
+                match pad_style {
+                    0 => 0xFF,
+                    1 => entries.min(255) as u8,
+                    2 => rng.next() as u8,
+                    _ => 0,
+                }
+            };
+        }
+    }
+    p
+}
+
+pub fn gen_tex_tpl(rng: &mut Rng, big: bool) -> Tex {
+    let (w, h) = if big { (rng.range(1, 64) as u32, rng.range(1, 64) as u32) } else { (rng.range(1, 18) as u32, rng.range(1, 10) as u32) };
+    let entries = *rng.pick(&[1usize, 2, 5, 16, 32, 255, 256]);
+    let payload = ci8_plane(rng, w, h, entries);
     Tex { name: String::new(), w, h, fmt: 9, payload, palette: rng.bytes(entries * 2) }
+}
+
+/// `byte_size_of_image` of a TPL image format (independent integer table).
+pub fn tpl_image_bytes(fmt: u32, w: u32, h: u32) -> usize {
+    let (bw, bh) = match fmt {
+        0 | 8 | 14 => (8usize, 8usize),
+        1 | 2 | 9 => (8, 4),
+        _ => (4, 4),
+    };
+    let base = ((w as usize + bw - 1) / bw * bw) * ((h as usize + bh - 1) / bh * bh);
+    match fmt {
+        0 | 8 => base / 2,
+        3 | 4 | 5 | 10 => base * 2,
+        6 => base * 4,
+        _ => base,
+    }
 }
 
 pub const KINDS: [&str; 4] = ["ctpk", "bch", "cgfx", "tpl"];
@@ -488,10 +528,10 @@ pub fn gen(seed: u64, tier: &str) -> Vec<String> {
     let thorough = tier == "thorough";
     let mut rng = Rng::new(seed ^ 0xC20);
     let mut lines = Vec::new();
-    let mut id = 0usize;
-    let mut next = |lines: &mut Vec<String>, body: String| {
-        lines.push(format!("c20.{:06} {}", id, body));
-        id += 1;
+    let id = std::cell::Cell::new(0usize);
+    let next = |lines: &mut Vec<String>, body: String| {
+        lines.push(format!("c20.{:06} {}", id.get(), body));
+        id.set(id.get() + 1);
     };
     // 1. conforming containers: 0..=6 textures, shuffled and canonical placement; read + every prefix
     let rounds = if thorough { 60 } else { 6 };
@@ -568,6 +608,62 @@ pub fn gen(seed: u64, tier: &str) -> Vec<String> {
                     let b = build(kind, &t2, 0, &mut r1, false);
                     next(&mut lines, format!("read {} {} ~", kind, hex(&b.file)));
                 }
+            }
+        }
+    }
+    // 1c. second use on the same thread (one case id = calls made one after the other): a failing or
+    //     differently shaped call, then an ordinary conforming file judged by the ordinary oracle
+    {
+        let seq = |lines: &mut Vec<String>, bodies: Vec<String>| {
+            for b in bodies {
+                lines.push(format!("c20.{:06} {}", id.get(), b));
+            }
+            id.set(id.get() + 1);
+        };
+        // TPL: an image of another block shape (rejected after de-blocking) with the same block-aligned
+        // size, then the CI8 image; both orders; a different size in between
+        let shapes: &[(u32, u32)] = if thorough { &[(8, 8), (16, 8), (5, 7), (13, 4), (8, 4), (24, 12), (3, 3)] } else { &[(8, 8), (13, 7), (16, 4)] };
+        for &(w, h) in shapes {
+            let (aw, ah) = ((w + 7) / 8 * 8, (h + 3) / 4 * 4);
+            for other in [5u32, 6, 0, 3] {
+                if !thorough && other == 3 {
+                    continue;
+                }
+                let entries = *rng.pick(&[2usize, 16, 255]);
+                let ci8 = vec![Tex { name: String::new(), w, h, fmt: 9, payload: ci8_plane(&mut rng, w, h, entries), palette: rng.bytes(entries * 2) }];
+                let oth = vec![Tex { name: String::new(), w: aw, h: ah, fmt: other, payload: rng.bytes(tpl_image_bytes(other, aw, ah)), palette: rng.bytes(8) }];
+                let b1 = build_tpl(&ci8, &mut rng, true);
+                let b2 = build_tpl(&oth, &mut rng, true);
+                let good = format!("read tpl {} {}", hex(&b1.file), tex_fields(&ci8, &b1));
+                let bad = format!("read tpl {} ~", hex(&b2.file));
+                if other % 2 == 1 {
+                    seq(&mut lines, vec![bad, good]);
+                } else {
+                    seq(&mut lines, vec![good.clone(), bad, good]);
+                }
+            }
+        }
+        // every container: wrong magic / truncated file / other dimensions first, then the ordinary file
+        for kind in KINDS.iter() {
+            for variant in 0..3 {
+                let n = rng.range(1, 2) as usize;
+                let texs: Vec<Tex> = (0..n).map(|_| if *kind == "tpl" { gen_tex_tpl(&mut rng, false) } else { gen_tex_3ds(&mut rng, *kind == "ctpk", false) }).collect();
+                let b = build(kind, &texs, 0x21, &mut rng, true);
+                let good = format!("read {} {} {}", kind, hex(&b.file), tex_fields(&texs, &b));
+                let first = match variant {
+                    0 => {
+                        let mut f = b.file.clone();
+                        f[1] ^= 0x40;
+                        format!("read {} {} ~", kind, hex(&f))
+                    }
+                    1 => format!("read {} {} ~", kind, hex(&b.file[..b.file.len() * 2 / 3])),
+                    _ => {
+                        let t2: Vec<Tex> = (0..2).map(|_| if *kind == "tpl" { gen_tex_tpl(&mut rng, false) } else { gen_tex_3ds(&mut rng, *kind == "ctpk", false) }).collect();
+                        let b2 = build(kind, &t2, 0, &mut rng, true);
+                        format!("read {} {} {}", kind, hex(&b2.file), tex_fields(&t2, &b2))
+                    }
+                };
+                seq(&mut lines, vec![first, good.clone(), good]);
             }
         }
     }
